@@ -79,15 +79,13 @@ def r1(ctx):
         for fb in ctx.w.family(rc.id):
             for sbb, te, fe, o in guards_on(fb, lambda o: o["k"] == "place" and place_has_field(o["p"], "turmoil_net::kernel::socket::Socket::fd_closed")):
                 ok = True
-        rm = list(rc.calls(REMOVE))
+        rm = [t for fb in ctx.w.family(rc.id) for bb, t in fb.calls(REMOVE)]
         ctx.inst(R, "reap_closed:requires-fd_closed", ok and bool(rm), rc.span, "reap_closed removes only entries whose fd was closed (oracle for the rule above)" if ok else
                  "reap_closed no longer tests fd_closed (ownership model changed: re-derive C13-R1)")
     if rc:
         # terminal = state == Closed OR reset: each disjunct alone must be able to make the filter true
         okd = False
         for fb in ctx.w.family(rc.id):
-            if fb.id == rc.id:
-                continue
             eq_t, rs_t = [], []
             for sbb, te, fe, o in guards_on(fb, lambda o: o["k"] == "call" and re.search(r"PartialEq>::eq$|PartialEq::eq$", o["t"]["f"])):
                 at = Slicer(ctx.w).atoms(fb, o["t"]["args"][0]) | Slicer(ctx.w).atoms(fb, o["t"]["args"][1])
@@ -96,8 +94,10 @@ def r1(ctx):
             for sbb, te, fe, o in guards_on(fb, lambda o: o["k"] == "place" and place_last_field(o["p"]) == "turmoil_net::kernel::socket::Tcb::reset"):
                 rs_t += te
             RESET = "turmoil_net::kernel::socket::Tcb::reset"
-            trues = [bb for bb, i, s in fb.all_stmts() if s["p"]["l"] == 0 and not s["p"].get("p") and s["r"]["k"] == "use" and (op_const(s["r"]["o"]) or {}).get("v") == 1]
-            copies = [bb for bb, i, s in fb.all_stmts() if s["p"]["l"] == 0 and not s["p"].get("p") and s["r"]["k"] == "use" and op_place(s["r"]["o"]) is not None
+            # the verdict may be the closure's return value or a flag local (`let terminal = match .. { .. }`)
+            isbool = lambda l: fb.tys[fb.locals[l]["ty"]].get("s") == "bool"
+            trues = [bb for bb, i, s in fb.all_stmts() if isbool(s["p"]["l"]) and not s["p"].get("p") and s["r"]["k"] == "use" and (op_const(s["r"]["o"]) or {}).get("v") == 1]
+            copies = [bb for bb, i, s in fb.all_stmts() if isbool(s["p"]["l"]) and not s["p"].get("p") and s["r"]["k"] == "use" and op_place(s["r"]["o"]) is not None
                       and place_last_field(op_place(s["r"]["o"])) == RESET]
             eq_f = []
             for sbb, te, fe, o in guards_on(fb, lambda o: o["k"] == "call" and re.search(r"PartialEq>::eq$|PartialEq::eq$", o["t"]["f"])):
@@ -111,7 +111,7 @@ def r1(ctx):
                     b2 = any(x in fb.reachable(rs_t[0][1], removed_edges=eq_t) for x in trues)
                 else:
                     b2 = bool(eq_f) and any(x in fb.reachable(eq_f[0][1]) for x in copies)
-                okd = a and b2
+                okd = okd or (a and b2)
         ctx.inst(R, "reap_closed:closed-or-reset", okd, rc.span, "a closed fd is reaped once its TCB is Closed or reset (either alone suffices)" if okd else
                  "reap_closed's terminal test is not `state == Closed || reset`: gracefully closed (or reset) sockets are never reaped")
     ctx.floor(R, 9)
